@@ -22,6 +22,7 @@ import Tie.Binders
 #print axioms Sourcer.C04_every_literal_skips
 #print axioms Sourcer.C04_ignored_rule
 #print axioms Sourcer.C04_leading_skip
+#print axioms Sourcer.C04_start_rule
 #print axioms Sourcer.C04_no_other_skip_point
 #print axioms Sourcer.C04_literal_then_skip
 #print axioms Sourcer.C04_skip_maximal
